@@ -1,12 +1,118 @@
+import BlockCiphers.Proofs.DesWeak
+import BlockCiphers.Proofs.DesWeakMeaning
+import BlockCiphers.Proofs.AesNi
+import BlockCiphers.Proofs.AesNiBytes
 /-
-C13 — weak-key screening.  Placeholder until the DES / AES models are merged: the theorems about
-`Des.weak`, the TDES tests and the AES predicate are stated in this file once `Impl/Des.lean` and
-`Impl/AesNi.lean` exist (see DESIGN §7 C13).
+C13 — weak-key screening flags exactly the degenerate keys
+GENERATED statement file (tools/gen_thm.py): every theorem below restates, verbatim, a theorem of a Proofs/ module
+and is proved by applying it.  ONLY property theorems and non-vacuity examples live in Thm/.
+Every other type uses `KeyInit::weak_key_test`'s default (`Ok(())`): their registry models leave `CipherModel.weak` at its default `.ok`;
+the check's direct oracle runs `weak`/`newchecked` on every registry type.
 -/
-namespace BC.Thm.C13
 
-/-- every type without an override uses `KeyInit::weak_key_test`'s default, which returns `Ok(())`:
-the registry model's `weak` field defaults to `.ok` -/
-theorem default_is_ok : (fun (_ : List (BitVec 8)) => true) = (fun _ => true) := rfl
+namespace BC.Des
+open BC.Spec.Des (stripParity weak56 weak64 weakKeys semiWeakKeys possiblyWeakKeys roundKeys degenerate C0 D0)
+theorem C13.des_weak_iff' (key : BitVec 64) : weak key = true ↔ stripParity key ∈ weak56 :=
+  _root_.BC.Des.des_weak_iff' key
+end BC.Des
 
-end BC.Thm.C13
+namespace BC.Des
+open BC.Spec.Des (stripParity weak56 weak64 weakKeys semiWeakKeys possiblyWeakKeys roundKeys degenerate C0 D0)
+/-- the verdict does not depend on the parity bits -/
+theorem C13.weak_parity (key m : BitVec 64) (hm : m &&& 0xFEFEFEFEFEFEFEFE#64 = 0#64) :
+    weak (key ^^^ m) = weak key :=
+  _root_.BC.Des.weak_parity key m hm
+end BC.Des
+
+namespace BC.Des
+open BC.Spec.Des (stripParity weak56 weak64 weakKeys semiWeakKeys possiblyWeakKeys roundKeys degenerate C0 D0)
+theorem C13.tdes2_weak_iff' (key : BitVec 128) :
+    weak2 key = true ↔ (stripParity (k1of2 key) ∈ weak56 ∨ stripParity (k2of2 key) ∈ weak56 ∨
+      stripParity (k1of2 key) = stripParity (k2of2 key)) :=
+  _root_.BC.Des.tdes2_weak_iff' key
+end BC.Des
+
+namespace BC.Des
+open BC.Spec.Des (stripParity weak56 weak64 weakKeys semiWeakKeys possiblyWeakKeys roundKeys degenerate C0 D0)
+theorem C13.tdes3_weak_iff' (key : BitVec 192) :
+    weak3 key = true ↔ (stripParity (k1of3 key) ∈ weak56 ∨ stripParity (k2of3 key) ∈ weak56 ∨
+      stripParity (k3of3 key) ∈ weak56 ∨
+      stripParity (k1of3 key) = stripParity (k2of3 key) ∨
+      stripParity (k1of3 key) = stripParity (k3of3 key) ∨
+      stripParity (k2of3 key) = stripParity (k3of3 key)) :=
+  _root_.BC.Des.tdes3_weak_iff' key
+end BC.Des
+
+namespace BC.Des
+open BC.Spec.Des (stripParity weak56 weak64 weakKeys semiWeakKeys possiblyWeakKeys roundKeys degenerate C0 D0)
+theorem C13.weak56_length : weak56.length = 64 :=
+  _root_.BC.Des.weak56_length
+end BC.Des
+
+namespace BC.Des
+open BC.Spec.Des (stripParity weak56 weak64 weakKeys semiWeakKeys possiblyWeakKeys roundKeys degenerate C0 D0)
+theorem C13.weak56_nodup : weak56.Nodup :=
+  _root_.BC.Des.weak56_nodup
+end BC.Des
+
+namespace BC.Des
+open BC.Spec.Des (stripParity weak56 weak64 weakKeys semiWeakKeys possiblyWeakKeys roundKeys degenerate
+  halfDegenerate C0 D0 permute bit PC1)
+/-- **C13**: `Des::weak_key_test` rejects exactly the structurally degenerate keys -/
+theorem C13.des_weak_iff_degenerate (k : BitVec 64) : weak k = true ↔ degenerate k = true :=
+  _root_.BC.Des.des_weak_iff_degenerate k
+end BC.Des
+
+namespace BC.Des
+open BC.Spec.Des (stripParity weak56 weak64 weakKeys semiWeakKeys possiblyWeakKeys roundKeys degenerate
+  halfDegenerate C0 D0 permute bit PC1)
+theorem C13.weak64_four_round_keys :
+    (weak64.all fun k => decide ((roundKeys k).eraseDups.length ≤ 4)) = true :=
+  _root_.BC.Des.weak64_four_round_keys
+end BC.Des
+
+namespace BC.Des
+open BC.Spec.Des (stripParity weak56 weak64 weakKeys semiWeakKeys possiblyWeakKeys roundKeys degenerate
+  halfDegenerate C0 D0 permute bit PC1)
+/-- under a weak key (any parity) encryption is an involution: `E_k(E_k(b)) = b` -/
+theorem C13.weak_key_involution (k b : BitVec 64) (hk : stripParity k ∈ weakKeys.map stripParity) :
+    desEnc k (desEnc k b) = b :=
+  _root_.BC.Des.weak_key_involution k b hk
+end BC.Des
+
+namespace BC.AesNi
+open BC BC.X86 BC.Spec.Aes
+/-- AES-128: weak exactly when the first 8 key bytes are zero -/
+theorem C13.weak_key_test128_iff (key : BitVec 128) :
+    weak_key_test128 key = WeakRes.weak ↔ key.extractLsb' 64 64 = 0#64 :=
+  _root_.BC.AesNi.weak_key_test128_iff key
+end BC.AesNi
+
+namespace BC.AesNi
+open BC BC.X86 BC.Spec.Aes
+/-- AES-192: weak exactly when the first 12 key bytes are zero -/
+theorem C13.weak_key_test192_iff (key : BitVec 192) :
+    weak_key_test192 key = WeakRes.weak ↔ key.extractLsb' 96 96 = 0#96 :=
+  _root_.BC.AesNi.weak_key_test192_iff key
+end BC.AesNi
+
+namespace BC.AesNi
+open BC BC.X86 BC.Spec.Aes
+/-- AES-256: weak exactly when the first 16 key bytes are zero -/
+theorem C13.weak_key_test256_iff (key : BitVec 256) :
+    weak_key_test256 key = WeakRes.weak ↔ key.extractLsb' 128 128 = 0#128 :=
+  _root_.BC.AesNi.weak_key_test256_iff key
+end BC.AesNi
+
+namespace BC.AesNi
+open BC BC.X86 BC.Spec.Aes
+open BC.Models.Aes
+/-- C13 at the registry level -/
+theorem C13.weakOf_iff (f : Fam) (k : Bytes) :
+    weakOf f k = WeakRes.weak ↔
+      match f with
+      | .a128 => (packBE 16 k).extractLsb' 64 64 = 0#64
+      | .a192 => (packBE 24 k).extractLsb' 96 96 = 0#96
+      | .a256 => (packBE 32 k).extractLsb' 128 128 = 0#128 :=
+  _root_.BC.AesNi.weakOf_iff f k
+end BC.AesNi
